@@ -217,7 +217,7 @@ pub fn c06_if_emptyarr() {
     user_if(6);
 }
 
-//@ harness: c06_if_arr0 tier=thorough timeout=900 kind=main mem=10
+//@ harness: c06_if_arr0 tier=thorough timeout=900 kind=main mem=10 optional=1
 //@ encodes: op::logic::if_, op::logic::truthy, Parsed::from_value, Raw::evaluate
 //@ bound: if(v, 1, 2) with literal condition v = [0]: selects 1 iff v is truthy by the table
 //@ cuts: maps evaluate
@@ -229,7 +229,7 @@ pub fn c06_if_arr0() {
     user_if(7);
 }
 
-//@ harness: c06_if_arrarr tier=thorough timeout=900 kind=main mem=10
+//@ harness: c06_if_arrarr tier=thorough timeout=900 kind=main mem=10 optional=1
 //@ encodes: op::logic::if_, op::logic::truthy, Parsed::from_value, Raw::evaluate
 //@ bound: if(v, 1, 2) with literal condition v = [[]]: selects 1 iff v is truthy by the table
 //@ cuts: maps evaluate
@@ -241,7 +241,7 @@ pub fn c06_if_arrarr() {
     user_if(8);
 }
 
-//@ harness: c06_if_obj tier=thorough timeout=900 kind=main mem=10
+//@ harness: c06_if_obj tier=thorough timeout=900 kind=main mem=10 optional=1
 //@ encodes: op::logic::if_, op::logic::truthy, Parsed::from_value, Raw::evaluate
 //@ bound: if(v, 1, 2) with literal condition v = {}: selects 1 iff v is truthy by the table
 //@ cuts: evaluate
@@ -253,7 +253,7 @@ pub fn c06_if_obj() {
     user_if(9);
 }
 
-//@ harness: c06_if_obj1 tier=thorough timeout=900 kind=main mem=10
+//@ harness: c06_if_obj1 tier=thorough timeout=900 kind=main mem=10 optional=1
 //@ encodes: op::logic::if_, op::logic::truthy, Parsed::from_value, Raw::evaluate
 //@ bound: if(v, 1, 2) with literal condition v = {"a":false}: selects 1 iff v is truthy by the table
 //@ cuts: evaluate
@@ -349,7 +349,7 @@ pub fn c06_andor_emptyarr() {
     user_and_or(6);
 }
 
-//@ harness: c06_andor_arr0 tier=thorough timeout=900 kind=main mem=10
+//@ harness: c06_andor_arr0 tier=thorough timeout=900 kind=main mem=10 optional=1
 //@ encodes: op::logic::and, op::logic::or, op::logic::truthy_from_evaluated, op::logic::truthy
 //@ bound: and(v, 1) / or(v, 1) with literal v = [0]
 //@ cuts: maps evaluate
@@ -361,7 +361,7 @@ pub fn c06_andor_arr0() {
     user_and_or(7);
 }
 
-//@ harness: c06_andor_arrarr tier=thorough timeout=900 kind=main mem=10
+//@ harness: c06_andor_arrarr tier=thorough timeout=900 kind=main mem=10 optional=1
 //@ encodes: op::logic::and, op::logic::or, op::logic::truthy_from_evaluated, op::logic::truthy
 //@ bound: and(v, 1) / or(v, 1) with literal v = [[]]
 //@ cuts: maps evaluate
@@ -373,7 +373,7 @@ pub fn c06_andor_arrarr() {
     user_and_or(8);
 }
 
-//@ harness: c06_andor_obj tier=thorough timeout=900 kind=main mem=10
+//@ harness: c06_andor_obj tier=thorough timeout=900 kind=main mem=10 optional=1
 //@ encodes: op::logic::and, op::logic::or, op::logic::truthy_from_evaluated, op::logic::truthy
 //@ bound: and(v, 1) / or(v, 1) with literal v = {}
 //@ cuts: evaluate
@@ -385,7 +385,7 @@ pub fn c06_andor_obj() {
     user_and_or(9);
 }
 
-//@ harness: c06_andor_obj1 tier=thorough timeout=900 kind=main mem=10
+//@ harness: c06_andor_obj1 tier=thorough timeout=900 kind=main mem=10 optional=1
 //@ encodes: op::logic::and, op::logic::or, op::logic::truthy_from_evaluated, op::logic::truthy
 //@ bound: and(v, 1) / or(v, 1) with literal v = {"a":false}
 //@ cuts: evaluate
@@ -423,7 +423,7 @@ fn user_quant(k: u8, which: u8) {
     std::mem::forget(coll);
 }
 
-//@ harness: c06_all_bool tier=thorough timeout=1800 kind=main mem=28
+//@ harness: c06_all_bool tier=thorough timeout=1800 kind=main mem=28 optional=1
 //@ encodes: op::array::all, op::logic::truthy_from_evaluated, op::logic::truthy (Parsed::from_value replaced by its recording twin: literals parse to Raw, C02; Value::clone by the bounded model)
 //@ bound: collection [5] (literal), literal predicate v = Bool(any): the operator's decision equals the truthiness table
 #[cfg_attr(kani, kani::proof)]
@@ -436,7 +436,7 @@ pub fn c06_all_bool() {
     user_quant(1, 0);
 }
 
-//@ harness: c06_some_bool tier=thorough timeout=1800 kind=main mem=28
+//@ harness: c06_some_bool tier=thorough timeout=1800 kind=main mem=28 optional=1
 //@ encodes: op::array::some, op::logic::truthy_from_evaluated, op::logic::truthy (Parsed::from_value replaced by its recording twin: literals parse to Raw, C02; Value::clone by the bounded model)
 //@ bound: collection [5] (literal), literal predicate v = Bool(any): the operator's decision equals the truthiness table
 #[cfg_attr(kani, kani::proof)]
@@ -449,7 +449,7 @@ pub fn c06_some_bool() {
     user_quant(1, 1);
 }
 
-//@ harness: c06_none_bool tier=thorough timeout=1800 kind=main mem=28
+//@ harness: c06_none_bool tier=thorough timeout=1800 kind=main mem=28 optional=1
 //@ encodes: op::array::none, op::logic::truthy_from_evaluated, op::logic::truthy (Parsed::from_value replaced by its recording twin: literals parse to Raw, C02; Value::clone by the bounded model)
 //@ bound: collection [5] (literal), literal predicate v = Bool(any): the operator's decision equals the truthiness table
 #[cfg_attr(kani, kani::proof)]
@@ -462,7 +462,7 @@ pub fn c06_none_bool() {
     user_quant(1, 2);
 }
 
-//@ harness: c06_filter_bool tier=thorough timeout=1800 kind=main mem=28
+//@ harness: c06_filter_bool tier=thorough timeout=1800 kind=main mem=28 optional=1
 //@ encodes: op::array::filter, op::logic::truthy_from_evaluated, op::logic::truthy (Parsed::from_value replaced by its recording twin: literals parse to Raw, C02; Value::clone by the bounded model)
 //@ bound: collection [5] (literal), literal predicate v = Bool(any): the operator's decision equals the truthiness table
 #[cfg_attr(kani, kani::proof)]
@@ -475,7 +475,7 @@ pub fn c06_filter_bool() {
     user_quant(1, 3);
 }
 
-//@ harness: c06_all_f64 tier=thorough timeout=1800 kind=main mem=28
+//@ harness: c06_all_f64 tier=thorough timeout=1800 kind=main mem=28 optional=1
 //@ encodes: op::array::all, op::logic::truthy_from_evaluated, op::logic::truthy (Parsed::from_value replaced by its recording twin: literals parse to Raw, C02; Value::clone by the bounded model)
 //@ bound: collection [5] (literal), literal predicate v = Number(any finite f64, incl. -0.0): the operator's decision equals the truthiness table
 #[cfg_attr(kani, kani::proof)]
@@ -488,7 +488,7 @@ pub fn c06_all_f64() {
     user_quant(4, 0);
 }
 
-//@ harness: c06_some_f64 tier=thorough timeout=1800 kind=main mem=28
+//@ harness: c06_some_f64 tier=thorough timeout=1800 kind=main mem=28 optional=1
 //@ encodes: op::array::some, op::logic::truthy_from_evaluated, op::logic::truthy (Parsed::from_value replaced by its recording twin: literals parse to Raw, C02; Value::clone by the bounded model)
 //@ bound: collection [5] (literal), literal predicate v = Number(any finite f64, incl. -0.0): the operator's decision equals the truthiness table
 #[cfg_attr(kani, kani::proof)]
@@ -501,7 +501,7 @@ pub fn c06_some_f64() {
     user_quant(4, 1);
 }
 
-//@ harness: c06_none_f64 tier=thorough timeout=1800 kind=main mem=28
+//@ harness: c06_none_f64 tier=thorough timeout=1800 kind=main mem=28 optional=1
 //@ encodes: op::array::none, op::logic::truthy_from_evaluated, op::logic::truthy (Parsed::from_value replaced by its recording twin: literals parse to Raw, C02; Value::clone by the bounded model)
 //@ bound: collection [5] (literal), literal predicate v = Number(any finite f64, incl. -0.0): the operator's decision equals the truthiness table
 #[cfg_attr(kani, kani::proof)]
@@ -514,7 +514,7 @@ pub fn c06_none_f64() {
     user_quant(4, 2);
 }
 
-//@ harness: c06_filter_f64 tier=thorough timeout=1800 kind=main mem=28
+//@ harness: c06_filter_f64 tier=thorough timeout=1800 kind=main mem=28 optional=1
 //@ encodes: op::array::filter, op::logic::truthy_from_evaluated, op::logic::truthy (Parsed::from_value replaced by its recording twin: literals parse to Raw, C02; Value::clone by the bounded model)
 //@ bound: collection [5] (literal), literal predicate v = Number(any finite f64, incl. -0.0): the operator's decision equals the truthiness table
 #[cfg_attr(kani, kani::proof)]
@@ -527,7 +527,7 @@ pub fn c06_filter_f64() {
     user_quant(4, 3);
 }
 
-//@ harness: c06_all_str tier=thorough timeout=1800 kind=main mem=28
+//@ harness: c06_all_str tier=thorough timeout=1800 kind=main mem=28 optional=1
 //@ encodes: op::array::all, op::logic::truthy_from_evaluated, op::logic::truthy (Parsed::from_value replaced by its recording twin: literals parse to Raw, C02; Value::clone by the bounded model)
 //@ bound: collection [5] (literal), literal predicate v = String(<= 2 symbolic chars): the operator's decision equals the truthiness table
 #[cfg_attr(kani, kani::proof)]
@@ -540,7 +540,7 @@ pub fn c06_all_str() {
     user_quant(5, 0);
 }
 
-//@ harness: c06_some_str tier=thorough timeout=1800 kind=main mem=28
+//@ harness: c06_some_str tier=thorough timeout=1800 kind=main mem=28 optional=1
 //@ encodes: op::array::some, op::logic::truthy_from_evaluated, op::logic::truthy (Parsed::from_value replaced by its recording twin: literals parse to Raw, C02; Value::clone by the bounded model)
 //@ bound: collection [5] (literal), literal predicate v = String(<= 2 symbolic chars): the operator's decision equals the truthiness table
 #[cfg_attr(kani, kani::proof)]
@@ -553,7 +553,7 @@ pub fn c06_some_str() {
     user_quant(5, 1);
 }
 
-//@ harness: c06_none_str tier=thorough timeout=1800 kind=main mem=28
+//@ harness: c06_none_str tier=thorough timeout=1800 kind=main mem=28 optional=1
 //@ encodes: op::array::none, op::logic::truthy_from_evaluated, op::logic::truthy (Parsed::from_value replaced by its recording twin: literals parse to Raw, C02; Value::clone by the bounded model)
 //@ bound: collection [5] (literal), literal predicate v = String(<= 2 symbolic chars): the operator's decision equals the truthiness table
 #[cfg_attr(kani, kani::proof)]
@@ -566,7 +566,7 @@ pub fn c06_none_str() {
     user_quant(5, 2);
 }
 
-//@ harness: c06_filter_str tier=thorough timeout=1800 kind=main mem=28
+//@ harness: c06_filter_str tier=thorough timeout=1800 kind=main mem=28 optional=1
 //@ encodes: op::array::filter, op::logic::truthy_from_evaluated, op::logic::truthy (Parsed::from_value replaced by its recording twin: literals parse to Raw, C02; Value::clone by the bounded model)
 //@ bound: collection [5] (literal), literal predicate v = String(<= 2 symbolic chars): the operator's decision equals the truthiness table
 #[cfg_attr(kani, kani::proof)]
@@ -579,7 +579,7 @@ pub fn c06_filter_str() {
     user_quant(5, 3);
 }
 
-//@ harness: c06_all_emptyarr tier=thorough timeout=1800 kind=main mem=28
+//@ harness: c06_all_emptyarr tier=thorough timeout=1800 kind=main mem=28 optional=1
 //@ encodes: op::array::all, op::logic::truthy_from_evaluated, op::logic::truthy (Parsed::from_value replaced by its recording twin: literals parse to Raw, C02; Value::clone by the bounded model)
 //@ bound: collection [5] (literal), literal predicate v = []: the operator's decision equals the truthiness table
 #[cfg_attr(kani, kani::proof)]
@@ -592,7 +592,7 @@ pub fn c06_all_emptyarr() {
     user_quant(6, 0);
 }
 
-//@ harness: c06_some_emptyarr tier=thorough timeout=1800 kind=main mem=28
+//@ harness: c06_some_emptyarr tier=thorough timeout=1800 kind=main mem=28 optional=1
 //@ encodes: op::array::some, op::logic::truthy_from_evaluated, op::logic::truthy (Parsed::from_value replaced by its recording twin: literals parse to Raw, C02; Value::clone by the bounded model)
 //@ bound: collection [5] (literal), literal predicate v = []: the operator's decision equals the truthiness table
 #[cfg_attr(kani, kani::proof)]
@@ -605,7 +605,7 @@ pub fn c06_some_emptyarr() {
     user_quant(6, 1);
 }
 
-//@ harness: c06_none_emptyarr tier=thorough timeout=1800 kind=main mem=28
+//@ harness: c06_none_emptyarr tier=thorough timeout=1800 kind=main mem=28 optional=1
 //@ encodes: op::array::none, op::logic::truthy_from_evaluated, op::logic::truthy (Parsed::from_value replaced by its recording twin: literals parse to Raw, C02; Value::clone by the bounded model)
 //@ bound: collection [5] (literal), literal predicate v = []: the operator's decision equals the truthiness table
 #[cfg_attr(kani, kani::proof)]
@@ -618,7 +618,7 @@ pub fn c06_none_emptyarr() {
     user_quant(6, 2);
 }
 
-//@ harness: c06_filter_emptyarr tier=thorough timeout=1800 kind=main mem=28
+//@ harness: c06_filter_emptyarr tier=thorough timeout=1800 kind=main mem=28 optional=1
 //@ encodes: op::array::filter, op::logic::truthy_from_evaluated, op::logic::truthy (Parsed::from_value replaced by its recording twin: literals parse to Raw, C02; Value::clone by the bounded model)
 //@ bound: collection [5] (literal), literal predicate v = []: the operator's decision equals the truthiness table
 #[cfg_attr(kani, kani::proof)]
@@ -631,7 +631,7 @@ pub fn c06_filter_emptyarr() {
     user_quant(6, 3);
 }
 
-//@ harness: c06_all_obj tier=thorough timeout=1800 kind=main mem=28
+//@ harness: c06_all_obj tier=thorough timeout=1800 kind=main mem=28 optional=1
 //@ encodes: op::array::all, op::logic::truthy_from_evaluated, op::logic::truthy (Parsed::from_value replaced by its recording twin: literals parse to Raw, C02; Value::clone by the bounded model)
 //@ bound: collection [5] (literal), literal predicate v = {}: the operator's decision equals the truthiness table
 #[cfg_attr(kani, kani::proof)]
@@ -644,7 +644,7 @@ pub fn c06_all_obj() {
     user_quant(9, 0);
 }
 
-//@ harness: c06_some_obj tier=thorough timeout=1800 kind=main mem=28
+//@ harness: c06_some_obj tier=thorough timeout=1800 kind=main mem=28 optional=1
 //@ encodes: op::array::some, op::logic::truthy_from_evaluated, op::logic::truthy (Parsed::from_value replaced by its recording twin: literals parse to Raw, C02; Value::clone by the bounded model)
 //@ bound: collection [5] (literal), literal predicate v = {}: the operator's decision equals the truthiness table
 #[cfg_attr(kani, kani::proof)]
@@ -657,7 +657,7 @@ pub fn c06_some_obj() {
     user_quant(9, 1);
 }
 
-//@ harness: c06_none_obj tier=thorough timeout=1800 kind=main mem=28
+//@ harness: c06_none_obj tier=thorough timeout=1800 kind=main mem=28 optional=1
 //@ encodes: op::array::none, op::logic::truthy_from_evaluated, op::logic::truthy (Parsed::from_value replaced by its recording twin: literals parse to Raw, C02; Value::clone by the bounded model)
 //@ bound: collection [5] (literal), literal predicate v = {}: the operator's decision equals the truthiness table
 #[cfg_attr(kani, kani::proof)]
@@ -670,7 +670,7 @@ pub fn c06_none_obj() {
     user_quant(9, 2);
 }
 
-//@ harness: c06_filter_obj tier=thorough timeout=1800 kind=main mem=28
+//@ harness: c06_filter_obj tier=thorough timeout=1800 kind=main mem=28 optional=1
 //@ encodes: op::array::filter, op::logic::truthy_from_evaluated, op::logic::truthy (Parsed::from_value replaced by its recording twin: literals parse to Raw, C02; Value::clone by the bounded model)
 //@ bound: collection [5] (literal), literal predicate v = {}: the operator's decision equals the truthiness table
 #[cfg_attr(kani, kani::proof)]
